@@ -1796,3 +1796,659 @@ def t_code_append_only(facts, res, tier):
         res.inst(key, True, {"function": fn["name"], "uses_of_self_code": sorted(set(uses))})
     if n == 0:
         raise AnchorMissing("AssemblyCode::append_* / set not found")
+
+
+@rule("T-SEQ-COND", floor=5,
+      text="the part of T-SEQ-POINT that concerns conditions, run on its own under C15 (`if (c) A else B` against `if (!c) B else A`, a `for` "
+           "against its `while`: the pending ++/-- of the condition take effect on both outcomes, whichever way the branch is spelled): the wrapper "
+           "protocol of generate_condition and the completeness of has_post_incdec")
+def t_seq_cond(facts, res, tier):
+    from core import Result
+    tmp = Result()
+    t_seq_point(facts, tmp, tier)
+    keep = lambda k: ":condition" in k or ":has_post_incdec:" in k
+    for key, nt, sample in tmp.instances:
+        if keep(key):
+            res.inst(key.replace("T-SEQ-POINT", "T-SEQ-COND", 1), nt, sample)
+    for v in tmp.violations:
+        if keep(v.key):
+            res.fail(v.key.replace("T-SEQ-POINT", "T-SEQ-COND", 1), v.where, v.msg, getattr(v, "detail", None))
+
+
+ENTRY_STATE = {"flags": "FlagsState::Unknown", "carry_flag_ok": "false"}
+
+
+def _entry_guard_ok(c, pol):
+    """the reset may depend on nothing but `no instruction has been generated for the current function yet`"""
+    t = expr_text(c).replace(" ", "")
+    if c.get("k") == "letcond":
+        return pol and pat_text(c["pat"]).replace(" ", "").startswith("Some(") and expr_text(c["e"]).replace(" ", "") .lstrip("&") in ("self.current_function", "self.current_function.as_ref()", "self.current_function.clone()")
+    if not pol or "self.functions_code" not in t:
+        return False
+    # <self.functions_code.get(f)>.map_or(true, |c| <c is empty>)   /   .is_none_or(|c| <c is empty>)
+    if c.get("k") == "mcall" and c["method"] in ("map_or", "is_none_or"):
+        args = c["args"]
+        if c["method"] == "map_or":
+            if not (args and args[0].get("k") == "lit" and args[0].get("v") is True):
+                return False
+            args = args[1:]
+        if len(args) == 1 and args[0].get("k") == "closure":
+            b = expr_text(args[0]["body"]).replace(" ", "")
+            return bool(re.fullmatch(r"[{(]*\w+\.(size_bytes\(\)==0|is_empty\(\))[)}]*", b))
+    return False
+
+
+@rule("T-ENTRY-FLAGS", floor=2,
+      text="what the generator believes of the processor (flags: which value the Z/N flags reflect; carry_flag_ok) describes the code generated so far "
+           "for the function at hand.  A driver generates the functions one after the other with the same GeneratorState, through generate_statement, and "
+           "cannot reach these private fields: generate_statement itself forgets them - before it emits anything, unconditionally or under the sole "
+           "condition that no instruction of the current function exists yet - or `if (x)` at the head of a function branches on the flags left by the "
+           "last statement of the previous one")
+def t_entry_flags(facts, res, tier):
+    from scopes import scoped
+    fn = next((f for f in facts.fns if f["name"] == "generate_statement" and not f.get("test")), None)
+    if fn is None:
+        raise AnchorMissing("generate_statement not found")
+    stmts = fn["body"].get("stmts", [])
+    # the first top-level statement that calls a method of the generator (emits, purges, recurses)
+    first_emit = next((i for i, s in enumerate(stmts) if any(x.get("k") == "mcall" and expr_text(x["recv"]) == "self" for x in walk(s))), len(stmts))
+    top_of = {}
+    for i, s in enumerate(stmts):
+        for x in walk(s):
+            top_of[id(x)] = i
+    found = {}
+    for node, env, doms in scoped(fn):
+        if node.get("k") != "assign":
+            continue
+        l = expr_text(node["l"]).replace(" ", "")
+        if not l.startswith("self.") or l[5:] not in ENTRY_STATE:
+            continue
+        field = l[5:]
+        if expr_text(node["r"]).replace(" ", "") != ENTRY_STATE[field]:
+            continue
+        if top_of.get(id(node), len(stmts)) >= first_emit:
+            continue
+        conds = [(d[1], d[2]) for d in doms if d[0] == "cond"]
+        arms = [d for d in doms if d[0] == "arm"]
+        bad = [expr_text(c) for c, pol in conds if not _entry_guard_ok(c, pol)]
+        bad += ["match arm %s" % pat_text(a[2]) for a in arms
+                if not (pat_text(a[2]).replace(" ", "").startswith("Some(") and expr_text(a[1]).replace(" ", "") .lstrip("&") in ("self.current_function", "self.current_function.as_ref()", "self.current_function.clone()"))]
+        found.setdefault(field, []).append((node, bad))
+    for field, want in ENTRY_STATE.items():
+        key = "T-ENTRY-FLAGS:%s" % field
+        cands = found.get(field, [])
+        good = [n for n, bad in cands if not bad]
+        if good:
+            res.inst(key, True, {"field": field, "reset_to": want, "at": facts.where(fn, good[0])})
+        elif cands:
+            n, bad = cands[0]
+            res.fail(key, facts.where(fn, n), "generate_statement resets `self.%s` at the head only under `%s`: something other than `nothing generated for the current function yet` decides whether the belief of the previous function is dropped" % (field, "` and `".join(bad)))
+        else:
+            res.fail(key, facts.where(fn, fn["body"]), "generate_statement emits without first setting `self.%s = %s` for a function whose code is still empty: the first statement of a function is generated with what was believed at the end of the previous one" % (field, want))
+
+
+LOC_SLOTS = {"filename": "0", "line": "1", "included_in": "2"}
+PASS_THROUGH = {"clone", "to_string", "to_owned", "as_ref", "as_deref", "map", "cloned", "into", "as_str"}
+
+
+@rule("T-LOC-ORIGIN", floor=12,
+      text="where compile.rs builds an Error, its file name, line and `included from` are those of one entry of the line map (the only table that "
+           "turns a line of the preprocessed text into a file and a line of the original text): each of the three fields of the literal is, through "
+           "locals, casts and clones, component .0/.1/.2 of `mapped_lines[..]` or of the entry a `mapped_lines.get/last/first` yielded - on every "
+           "alternative that can supply it.  The only other value admitted is the placeholder used while `mapped_lines.is_empty()` holds.  A line "
+           "number taken from the parser as it is counts lines of the preprocessed text: every comment, directive or include above it shifts it")
+def t_loc_origin(facts, res, tier):
+    from scopes import scoped
+    n_lit = 0
+    for fn in facts.fns:
+        if not fn["file"].endswith("/compile.rs") or fn.get("test"):
+            continue
+        lits = [n for n in walk(fn["body"]) if n.get("k") == "struct" and (n.get("segs") or [""])[0] == "Error" and any(f.get("name") == "line" for f in n.get("fields", []))]
+        if not lits:
+            continue
+        info = {}
+        for node, env, doms in scoped(fn):
+            info[id(node)] = (env, doms)
+
+        def under_empty(node):
+            env, doms = info.get(id(node), ({}, []))
+            return any(d[0] == "cond" and d[2] and expr_text(d[1]).replace(" ", "").endswith("mapped_lines.is_empty()") for d in doms)
+
+        def component(r, i):
+            """the expressions that can supply component i of tuple-valued r"""
+            k = r.get("k")
+            if k == "tuple":
+                return [r["elems"][i]] if i < len(r["elems"]) else []
+            if k == "match":
+                return [c for a in r["arms"] for c in component(a["body"], i)]
+            if k == "if":
+                out = component(r["then"], i)
+                return out + (component(r["else"], i) if r.get("else") else [None])
+            if k == "block":
+                st = r.get("stmts", [])
+                return component(st[-1], i) if st and not st[-1].get("semi") else [None]
+            if k == "paren":
+                return component(r["e"], i)
+            return [None]
+
+        def writes(name):
+            out = []
+            for x in walk(fn["body"]):
+                if x.get("k") == "let" and x.get("init") is not None and x.get("pat", {}).get("k") == "ident" and x["pat"].get("name") == name:
+                    out.append(x["init"])
+                if x.get("k") == "assign":
+                    l = x["l"]
+                    if l.get("k") == "path" and l["segs"] == [name]:
+                        out.append(x["r"])
+                    elif l.get("k") == "tuple":
+                        for i, e in enumerate(l["elems"]):
+                            if e.get("k") == "path" and e["segs"] == [name]:
+                                out.extend(component(x["r"], i))
+            return out
+
+        def origin(e, slot, seen):
+            """list of (expr, why) that are not a component `slot` of a line-map entry"""
+            if e is None:
+                return [(None, "an alternative that supplies no value the checker can follow")]
+            k = e.get("k")
+            if under_empty(e):
+                return []
+            if k in ("cast", "paren", "ref", "unary"):
+                return origin(e["e"], slot, seen)
+            if k == "mcall" and e["method"] in PASS_THROUGH:
+                return origin(e["recv"], slot, seen)
+            if k in ("match", "if", "block"):
+                bad = []
+                alts = [a["body"] for a in e["arms"]] if k == "match" else ([e["then"]] + ([e["else"]] if e.get("else") else [None])) if k == "if" else [(e.get("stmts") or [None])[-1]]
+                for a in alts:
+                    bad += origin(a, slot, seen)
+                return bad
+            if k == "field" and e["name"] == slot:
+                b = e["base"]
+                if b.get("k") == "index" and expr_text(b["base"]).replace(" ", "").endswith("mapped_lines"):
+                    return []
+                if b.get("k") == "path" and len(b["segs"]) == 1:
+                    env, _ = info.get(id(e), ({}, []))
+                    bd = env.get(b["segs"][0])
+                    sc = bd.scrut if bd is not None else None
+                    if sc is not None and sc.get("k") == "mcall" and sc["method"] in ("get", "last", "first") and expr_text(sc["recv"]).replace(" ", "").endswith("mapped_lines") and "::".join(bd.ctor or []) == "Some":
+                        return []
+                    if bd is not None and bd.init is not None and bd.init.get("k") in ("index", "ref"):
+                        t = expr_text(bd.init).replace(" ", "").lstrip("&")
+                        if re.match(r"(self\.)?mapped_lines\[", t):
+                            return []
+                return [(e, "component .%s of something that is not a line-map entry" % slot)]
+            if k == "path" and len(e["segs"]) == 1:
+                name = e["segs"][0]
+                if name in seen:
+                    return []
+                ws = writes(name)
+                if not ws:
+                    return [(e, "`%s` is not written in %s" % (name, fn["name"]))]
+                bad = []
+                for w in ws:
+                    bad += origin(w, slot, seen | {name})
+                return bad
+            if under_empty(e):
+                return []
+            return [(e, "not taken from the line map")]
+
+        for lit in lits:
+            n_lit += 1
+            flds = {f["name"]: f["e"] for f in lit["fields"]}
+            for field, slot in LOC_SLOTS.items():
+                if field not in flds:
+                    continue
+                key = "T-LOC-ORIGIN:%s:%s" % (fn["name"], field)
+                bad = origin(flds[field], slot, frozenset())
+                res.inst(key, True, {"literal": facts.where(fn, lit), "field": field, "value": expr_text(flds[field])[:80]})
+                for e, why in bad:
+                    res.fail(key, facts.where(fn, e if e is not None else lit),
+                             "%s builds an Error whose `%s` can be `%s` (%s): the report names a line of the preprocessed text, or the wrong file, whenever a comment, "
+                             "a directive, a skipped region or an include precedes the defect" % (fn["name"], field, expr_text(e)[:60] if e is not None else "?", why))
+        # the location pest prints (LineColLocation::Pos / Span rebuilt for the message on stderr): its line components likewise
+        for x in walk(fn["body"]):
+            if x.get("k") == "call" and x["func"].get("k") == "path" and x["func"]["segs"][:1] == ["LineColLocation"]:
+                for a in x["args"]:
+                    if a.get("k") == "tuple" and a["elems"]:
+                        key = "T-LOC-ORIGIN:%s:LineColLocation::%s" % (fn["name"], x["func"]["segs"][-1])
+                        res.inst(key, True, {"where": facts.where(fn, x)})
+                        for e, why in origin(a["elems"][0], "1", frozenset()):
+                            res.fail(key, facts.where(fn, x), "%s rebuilds the parser's location with line `%s` (%s)" % (fn["name"], expr_text(e)[:60] if e is not None else "?", why))
+    if n_lit == 0:
+        raise AnchorMissing("no Error literal with a `line` field in compile.rs")
+
+
+@rule("T-CPP-BODY-EXPANDED", floor=2,
+      text="Context::replace_all chooses the macros it tries on a line by matching the ORIGINAL text of the line (RegexSet::matches(s)); a macro "
+           "whose name only appears once another has been replaced is never tried.  That is complete only because every body in the tables is "
+           "already free of earlier macros: the body handed to define / define_ex in the #define branch of process() is, on every alternative, "
+           "`context.replace_all(<text after the name>)` - possibly rewritten afterwards (parameters to ${..}, `##` removed), but never the raw "
+           "text.  `#define BASE 16` / `#define REG(n) reg##n + BASE` / `i = REG(1);` otherwise leaves `BASE` in the output")
+def t_cpp_body_expanded(facts, res, tier):
+    fn = facts.fn("process", "")
+    n = 0
+
+    def writes(name):
+        out = []
+        for x in walk(fn["body"]):
+            if x.get("k") == "let" and x.get("init") is not None and x.get("pat", {}).get("k") == "ident" and x["pat"].get("name") == name:
+                out.append(x["init"])
+            if x.get("k") == "assign" and x["l"].get("k") == "path" and x["l"]["segs"] == [name]:
+                out.append(x["r"])
+        return out
+
+    def raw_sources(e, seen):
+        """alternatives that can supply the value without passing through replace_all"""
+        while isinstance(e, dict) and e.get("k") in ("paren", "ref", "try", "cast"):
+            e = e["e"]
+        if e is None:
+            return ["?"]
+        k = e.get("k")
+        if k == "mcall" and e["method"] == "replace_all" and expr_text(e["recv"]).replace(" ", "") in ("context", "self"):
+            return []
+        if k in ("match", "if", "block"):
+            alts = [a["body"] for a in e["arms"]] if k == "match" else ([e["then"]] + ([e["else"]] if e.get("else") else [None])) if k == "if" else [(e.get("stmts") or [None])[-1]]
+            return [r for a in alts for r in raw_sources(a, seen)]
+        if k == "tuple":
+            return [r for a in e["elems"] for r in raw_sources(a, seen)]
+        names = [x["segs"][0] for x in walk(e) if x.get("k") == "path" and len(x["segs"]) == 1]
+        if k == "path" and len(e["segs"]) == 1:
+            nm = e["segs"][0]
+            if nm in seen:
+                return []
+            ws = writes(nm)
+            if not ws:
+                return ["`%s`" % nm]
+            return [r for w in ws for r in raw_sources(w, seen | {nm})]
+        # a rewriting of a local that is itself expanded (value.replace(..), re.replace_all(&value, ..).to_string())
+        locs = [nm for nm in names if writes(nm)]
+        own = [nm for nm in locs if nm in seen]
+        if own:
+            return []
+        return ["`%s`" % expr_text(e)[:60]]
+
+    for x in walk(fn["body"]):
+        if x.get("k") == "mcall" and x["method"] in ("define", "define_ex") and expr_text(x["recv"]).replace(" ", "") == "context" and len(x["args"]) == 2:
+            n += 1
+            body = x["args"][1]
+            if body.get("k") == "tuple":
+                body = body["elems"][-1]
+            key = "T-CPP-BODY-EXPANDED:%s" % x["method"]
+            raw = raw_sources(body, frozenset())
+            res.inst(key, True, {"call": facts.where(fn, x), "body": expr_text(body)[:40]})
+            for r in raw:
+                res.fail(key, facts.where(fn, x), "process() can store a macro body that is %s and not the result of context.replace_all: an earlier macro named in that body is not among the candidates replace_all picks from the text of the line that uses the macro, and stays in the output" % r)
+    if n == 0:
+        raise AnchorMissing("process(): no context.define / define_ex call found")
+
+
+IDENTITY_METHODS = {"clone", "to_string", "to_owned", "into", "as_str", "as_ref", "borrow", "deref", "into_owned"}
+
+
+@rule("T-ASM-TEXT-VERBATIM", floor=4,
+      text="the text of an asm(\"..\") statement is a literal: from the statement (Statement::Asm) to the line of assembly (AsmLine::Inline) it is "
+           "only handed on.  Every `AsmLine::Inline(t, ..)` built in the crate takes `t` unchanged from a parameter of its function or from the "
+           "text of another Inline / Statement::Asm it was matched out of, and every call of a function that hands such a parameter on passes its "
+           "own parameter or a matched text, up to the statement.  A text built with format!, a regex replacement or any other call is a rewritten "
+           "literal (append_code suffixing `.word` inside the text turns `.byte $2c` into `.byteinline1 $2c`)")
+def t_asm_text_verbatim(facts, res, tier):
+    from scopes import scoped
+    fns = [f for f in facts.fns if not f.get("test") and "/tests/" not in f["file"]]
+
+    def identity_root(e):
+        while isinstance(e, dict):
+            k = e.get("k")
+            if k in ("paren", "ref", "cast"):
+                e = e["e"]
+            elif k == "unary" and e.get("op") in ("*", "&"):
+                e = e["e"]
+            elif k == "mcall" and e["method"] in IDENTITY_METHODS and not e["args"]:
+                e = e["recv"]
+            else:
+                break
+        return e
+
+    carriers = {}   # (fn name) -> param index (0-based among non-self params) of the text
+    work = []
+    n = 0
+
+    def judge(fn, node, arg, what, env):
+        """arg must be the function's own parameter, or a matched Inline/Asm text; returns the param index if a parameter"""
+        r = identity_root(arg)
+        if isinstance(r, dict) and r.get("k") == "path" and len(r["segs"]) == 1:
+            nm = r["segs"][0]
+            b = env.get(nm)
+            if b is not None and b.src == "param":
+                names = [p["name"] for p in fn.get("params", []) if p["name"] != "self"]
+                return ("param", names.index(nm)) if nm in names else ("bad", "`%s`" % nm)
+            if b is not None and b.src == "pat" and (b.ctor or [""])[-1] in ("Inline", "Asm") and b.idx == 0:
+                return ("matched", "::".join(b.ctor))
+            if b is not None and b.src in ("let", "pat") and b.init is not None:
+                return judge(fn, node, b.init, what, env)
+            return ("bad", "`%s` (%s)" % (nm, "bound by " + b.src if b is not None else "not a local"))
+        return ("bad", "`%s`" % expr_text(arg)[:70])
+
+    # 1. constructor sites
+    for fn in fns:
+        for node, env, doms in scoped(fn):
+            if node.get("k") == "call" and node["func"].get("k") == "path" and node["func"]["segs"][-2:] == ["AsmLine", "Inline"] and node["args"]:
+                n += 1
+                key = "T-ASM-TEXT-VERBATIM:%s:AsmLine::Inline" % fn["name"]
+                v = judge(fn, node, node["args"][0], "builds", env)
+                res.inst(key, True, {"where": facts.where(fn, node), "text": expr_text(node["args"][0])[:40], "is": list(v)})
+                if v[0] == "bad":
+                    res.fail(key, facts.where(fn, node), "%s builds an AsmLine::Inline whose text is %s: the literal of an asm() statement is rewritten on its way to the output" % (fn["name"], v[1]))
+                elif v[0] == "param":
+                    carriers[fn["name"]] = v[1]
+                    work.append(fn["name"])
+    # 2. callers of the carriers, transitively
+    done = set()
+    while work:
+        callee = work.pop()
+        if callee in done:
+            continue
+        done.add(callee)
+        idx = carriers[callee]
+        for fn in fns:
+            for node, env, doms in scoped(fn):
+                if node.get("k") == "mcall" and node["method"] == callee and len(node["args"]) > idx:
+                    n += 1
+                    key = "T-ASM-TEXT-VERBATIM:%s:%s" % (fn["name"], callee)
+                    v = judge(fn, node, node["args"][idx], "passes", env)
+                    res.inst(key, True, {"where": facts.where(fn, node), "text": expr_text(node["args"][idx])[:40], "is": list(v)})
+                    if v[0] == "bad":
+                        res.fail(key, facts.where(fn, node), "%s hands %s to %s as the text of an asm() line: not the literal of the statement as it was written" % (fn["name"], v[1], callee))
+                    elif v[0] == "param" and fn["name"] not in carriers:
+                        carriers[fn["name"]] = v[1]
+                        work.append(fn["name"])
+    if not carriers:
+        raise AnchorMissing("no AsmLine::Inline built from a parameter")
+
+
+@rule("T-OPERAND-ERR-KEPT", floor=8,
+      text="the operands a Pratt callback receives (lhs / rhs of map_infix, map_prefix, map_postfix in parse_calc, parse_expr_ex and "
+           "parse_expr_init_value_ex) are Results: an Err is a sub-expression that was rejected (division by zero, a constant that does not fit, an "
+           "unknown name).  An operand is only ever opened with `?` - or by a match / if let whose every alternative able to receive the Err hands "
+           "that Err back.  A catch-all arm, unwrap_or, ok(), is_ok() on an operand turns a rejected sub-expression into some value: "
+           "`1 ? 1/0 : 7` becomes 7")
+def t_operand_err_kept(facts, res, tier):
+    from rules_literals import closure_arg
+    n = 0
+    for fn in facts.fns:
+        if fn.get("test") or closure_arg(fn, "map_primary") is None:
+            continue
+        for x in walk(fn["body"]):
+            if not (x.get("k") == "mcall" and x["method"] in ("map_infix", "map_prefix", "map_postfix") and x["args"] and x["args"][0].get("k") == "closure"):
+                continue
+            c = x["args"][0]
+            ops = [p.get("name") for p in c["params"] if p.get("name") in ("lhs", "rhs")]
+            par = _parents(c["body"])
+            for name in ops:
+                n += 1
+                key = "T-OPERAND-ERR-KEPT:%s:%s:%s" % (fn["name"], x["method"], name)
+                uses = [u for u in walk(c["body"]) if u.get("k") == "path" and u["segs"] == [name]]
+                res.inst(key, True, {"uses": len(uses)})
+                for u in uses:
+                    p, slot, _ = par[id(u)]
+                    pk = p.get("k")
+                    if pk == "try":
+                        continue
+                    if pk == "match" and slot == "e":
+                        bad = None
+                        for a in p["arms"]:
+                            pt = pat_text(a["pat"]).replace(" ", "")
+                            takes_err = pt == "_" or re.fullmatch(r"\w+", pt) or pt.startswith("Err(") or (pt.startswith("Ok(") is False and "Err" in pt)
+                            if not takes_err:
+                                continue
+                            m = re.fullmatch(r"Err\((\w+)\)", pt)
+                            bt = expr_text(a["body"]).replace(" ", "")
+                            if m and a.get("guard") is None and re.search(r"Err\(%s(\.clone\(\))?\)" % m.group(1), bt):
+                                continue
+                            bad = a
+                            break
+                        if bad is None:
+                            continue
+                        res.fail(key, facts.where(fn, bad["body"]), "%s: a %s callback matches its operand `%s` and the arm `%s` can receive its Err without handing it back: a rejected sub-expression (division by zero, constant out of range) is given a value" % (fn["name"], x["method"], name, pat_text(bad["pat"])))
+                        continue
+                    res.fail(key, facts.where(fn, u), "%s: a %s callback uses its operand `%s` otherwise than through `?` (in `%s`): the Err of a rejected sub-expression can be dropped" % (fn["name"], x["method"], name, expr_text(p)[:60]))
+    if n == 0:
+        raise AnchorMissing("no Pratt callback with Result operands found")
+
+
+def _diverges_err(n):
+    """the node is (or ends in) `return Err(..)` / `Err(..)?` / unreachable!: no code follows on this path"""
+    n = _unwrap_try(n)
+    if not isinstance(n, dict):
+        return False
+    k = n.get("k")
+    if k == "return":
+        return True
+    if k == "macro" and n.get("name") in ("unreachable", "panic", "unimplemented", "todo"):
+        return True
+    if k == "block":
+        return any(_diverges_err(s) for s in n.get("stmts", []))
+    if k == "match":
+        return all(_diverges_err(a["body"]) for a in n["arms"])
+    if k == "if":
+        return n.get("else") is not None and _diverges_err(n["then"]) and _diverges_err(n["else"])
+    return False
+
+
+@rule("T-SUBSTMT-ALL", floor=5,
+      text="a generator function that receives a sub-statement of the statement it translates (the body of a loop, the two alternatives of an if: "
+           "parameters of type &StatementLoc or Option<&StatementLoc>) hands it to generate_statement - or to another such function - on every path "
+           "that returns normally, whatever the condition turned out to be at compile time.  The only alternatives that may do without are the one "
+           "where the Option is None and the one that has recognised, by matching on `<stmt>.statement`, a statement without sub-statements AND "
+           "without a label (`<stmt>.label.is_none()`).  A statement that is not generated takes its goto label, case labels and loop labels with "
+           "it: `JMP .L` is emitted and `.L` never is")
+def t_substmt_all(facts, res, tier):
+    gen = {f["name"]: f for f in genmodel.gen_fns(facts)}
+    takers = {}
+    for name, fn in gen.items():
+        ps = [p["name"] for p in fn.get("params", []) if "StatementLoc" in p.get("ty", "") and "Vec" not in p.get("ty", "")]
+        if ps and name != "generate_statement":
+            takers[name] = ps
+    if not takers:
+        raise AnchorMissing("no generator function takes a sub-statement")
+    n = 0
+    for name, ps in sorted(takers.items()):
+        fn = gen[name]
+        for P in ps:
+            n += 1
+            key = "T-SUBSTMT-ALL:%s:%s" % (name, P)
+            gaps = []
+
+            def hands_on(x, names):
+                x = _unwrap_try(x)
+                return _self_call(x) and (x["method"] == "generate_statement" or x["method"] in takers) and any(_mentions(a, v) for a in x.get("args", []) for v in names)
+
+            def must(nd, names):
+                """True when every normally completing path through nd hands one of `names` on"""
+                nd = _unwrap_try(nd)
+                if not isinstance(nd, dict):
+                    return False
+                k = nd.get("k")
+                if hands_on(nd, names):
+                    return True
+                if k == "block":
+                    return any(must(s, names) or _diverges_err(s) for s in nd.get("stmts", []))
+                if k == "if":
+                    cond = nd["cond"]
+                    if must(cond, names):
+                        return True
+                    tn = list(names)
+                    if cond.get("k") == "letcond" and _mentions(cond["e"], P) and pat_text(cond["pat"]).replace(" ", "").startswith("Some("):
+                        tn += scopes_pat_names(cond["pat"])
+                    t = must(nd["then"], tn) or _diverges_err(nd["then"])
+                    if nd.get("else") is None:
+                        # `if let Some(s) = P { generate(s) }`: nothing to generate when None
+                        e = cond.get("k") == "letcond" and expr_text(cond["e"]).replace(" ", "").lstrip("&") in names and pat_text(cond["pat"]).replace(" ", "").startswith("Some(")
+                    else:
+                        e = must(nd["else"], names) or _diverges_err(nd["else"])
+                    if not (t and e) and not any(hands_on(x, tn) for x in walk(nd)):
+                        return False
+                    if not t and not any(g[0] is not None and any(y is g[0] for y in walk(nd["then"])) for g in gaps):
+                        gaps.append((nd["then"], "the branch taken when `%s`" % expr_text(cond)[:50]))
+                    if not e and not (nd.get("else") and any(any(y is g[0] for y in walk(nd["else"])) for g in gaps)):
+                        gaps.append((nd.get("else") or nd, "the branch taken when not `%s`" % expr_text(cond)[:50]))
+                    return t and e
+                if k == "match":
+                    if must(nd["e"], names):
+                        return True
+                    sc = expr_text(nd["e"]).replace(" ", "").lstrip("&")
+                    on_option = sc in names or sc in [v + ".as_ref()" for v in names]
+                    on_kind = any(sc == v + ".statement" for v in names)
+                    ok = True
+                    allnames = list(names) + [v for a in nd["arms"] for v in (scopes_pat_names(a["pat"]) if on_option else [])]
+                    if not any(hands_on(x, allnames) for x in walk(nd)):
+                        return all(_diverges_err(a["body"]) for a in nd["arms"])
+                    for a in nd["arms"]:
+                        an = list(names) + (scopes_pat_names(a["pat"]) if on_option else [])
+                        pt = pat_text(a["pat"]).replace(" ", "")
+                        if on_option and pt == "None":
+                            continue
+                        if must(a["body"], an) or _diverges_err(a["body"]):
+                            continue
+                        if on_kind and pt.startswith("Statement::") and "(" not in pt and a.get("guard") is not None and any(expr_text(a["guard"]).replace(" ", "") == v + ".label.is_none()" for v in names):
+                            continue
+                        ok = False
+                        if any(any(y is g[0] for y in walk(a["body"])) for g in gaps):
+                            continue
+                        gaps.append((a["body"], "the arm `%s`%s" % (pat_text(a["pat"])[:40], " if " + expr_text(a["guard"])[:40] if a.get("guard") is not None else "")))
+                    return ok
+                if k in ("for", "while", "loop", "closure"):
+                    return False
+                if k == "let":
+                    return must(nd.get("init"), names) if nd.get("init") is not None else False
+                if k in ("mcall", "call"):
+                    return any(must(a, names) for a in ([nd.get("recv")] if k == "mcall" else []) + list(nd.get("args", [])))
+                if k in ("assign", "assignop"):
+                    return must(nd.get("r"), names)
+                return False
+
+            whole = must(fn["body"], [P])
+            res.inst(key, True, {"function": name, "sub_statement": P, "generated_on_every_path": whole})
+            if not whole:
+                if not gaps:
+                    gaps.append((fn["body"], "the body"))
+                seen = set()
+                for g, what in gaps:
+                    if what in seen:
+                        continue
+                    seen.add(what)
+                    res.fail(key, facts.where(fn, g), "%s does not hand its sub-statement `%s` to generate_statement on %s: a goto label, case label or loop label inside it is never emitted while jumps to it are" % (name, P, what))
+
+
+OPERAND_RELATION_EXCEPTIONS = {
+    # helper: why a relation other than equality of the text is sound
+    "immediates_differ": "answers `known to differ`, never `same`: true only when both texts are plain decimal immediates whose low bytes differ (checked below: the body yields true only under both parse() being Ok)",
+}
+
+
+@rule("T-OPERAND-IDENTITY", floor=10,
+      text="the assembler layer knows an operand only as text (`dasm_operand`): `big+128` may be the read port of a superchip variable or element "
+           "128 of an ordinary array, `tab,X` and `tab` overlap or not depending on X.  Wherever optimize() or check_branches() relate the operand of "
+           "one instruction to that of another, or to the text a register is known to hold, in order to call them the same cell or the same target, the "
+           "relation is equality of the whole text (`==`, `!=`, eq, ne, or a helper whose body is that comparison).  Anything that calls two different "
+           "texts the same - an offset rule, a prefix - deletes a load or a store of an ordinary variable")
+def t_operand_identity(facts, res, tier):
+    from scopes import scoped
+    n = 0
+    helpers = {f["name"]: f for f in facts.fns if f["file"].endswith("assemble.rs") and not f.get("qual") and not f.get("test")}
+    for fn in facts.fns:
+        if not fn["file"].endswith("assemble.rs") or fn.get("test") or fn["name"] not in ("optimize", "check_branches"):
+            continue
+        for node, env, doms in scoped(fn):
+            k = node.get("k")
+            if k == "binary" and node["op"] not in ("&&", "||"):
+                sides = [node["l"], node["r"]]
+                how = node["op"]
+            elif k == "mcall" and node["method"] not in ("push", "write", "insert", "clone", "to_string", "set", "append_asm"):
+                sides = [node["recv"]] + list(node.get("args", []))
+                how = node["method"]
+            elif k == "call" and node["func"].get("k") == "path" and node["func"]["segs"][-1] in helpers:
+                sides = list(node.get("args", []))
+                how = node["func"]["segs"][-1]
+            else:
+                continue
+            if len(sides) < 2:
+                continue
+            opd = [s for s in sides if "dasm_operand" in expr_text(s)]
+            if not opd:
+                continue
+            others = [s for s in sides if not any(s is o for o in opd)]
+            # a relation to a literal (`starts_with('#')`, `== "cctmp"`) says something of one text, it does not relate two
+            if len(opd) < 2 and all(x.get("k") == "lit" or (x.get("k") in ("ref", "paren") and x["e"].get("k") == "lit") for x in others):
+                continue
+            if len(opd) < 2 and not others:
+                continue
+            n += 1
+            key = "T-OPERAND-IDENTITY:%s:%s" % (fn["name"], how)
+            res.inst(key, True, {"function": fn["name"], "relation": expr_text(node)[:90]})
+            ok = (k == "binary" and how in ("==", "!=")) or (k == "mcall" and how in ("eq", "ne"))
+            if k == "call":
+                h = helpers[how]
+                stmts = h["body"].get("stmts") or []
+                ps = [p.get("name") for p in h.get("params", [])]
+                if len(stmts) == 1:
+                    e = stmts[0]
+                    while e.get("k") == "paren":
+                        e = e["e"]
+                    if e.get("k") == "binary" and e["op"] in ("==", "!=") and len(ps) == 2 and all(_mentions(e, p) for p in ps):
+                        ok = True
+                if how in OPERAND_RELATION_EXCEPTIONS and how == "immediates_differ":
+                    # premise of the exception: a single match on the two parses; only the (Ok, Ok) arm can yield true
+                    bt = expr_text(h["body"]).replace(" ", "")
+                    m = stmts[0] if len(stmts) == 1 and stmts[0].get("k") == "match" else None
+                    premise = m is not None and bt.count(".parse(") == 2 and all(
+                        pat_text(a["pat"]).replace(" ", "").startswith("(Ok(") and pat_text(a["pat"]).count("Ok(") == 2 or expr_text(a["body"]).replace(" ", "") == "false" for a in m["arms"])
+                    if premise:
+                        ok = True
+                    else:
+                        res.fail(key + ":premise", facts.where(h, h["body"]), "the premise under which `%s` is admitted no longer holds (%s)" % (how, OPERAND_RELATION_EXCEPTIONS[how][:80]))
+                        ok = True
+            if not ok:
+                res.fail(key, facts.where(fn, node), "%s relates two operand texts with `%s`, which is not equality of the whole text: two different texts are called the same cell (`big` and `big+128` of an ordinary array, say) and a load or store between them is dropped" % (fn["name"], expr_text(node)[:80]))
+    res.note("%d operand relations" % n)
+
+
+@rule("T-ALT-JUMP", floor=4,
+      text="where the generator lays out two alternatives one after the other - code for the first, `label(E)`, code for the second, `label(F)` later in "
+           "the same block, E having been handed earlier in that block to the call that emits the branch to it - the statement just before `label(E)` "
+           "is the unconditional `asm(JMP, Label(F))` (or leaves the function): the first alternative must not run into the second.  Whether that "
+           "jump is needed cannot be read off the code emitted so far (a `JMP .endof` seen as the last instruction may be followed by a label, "
+           "i.e. by reachable code): a jump emitted under a condition lets `if (c) { if (d) return 1; } else x = 2;` fall into the else part - in the "
+           "inline copy of a function only")
+def t_alt_jump(facts, res, tier):
+    n = 0
+    for fn in genmodel.gen_fns(facts):
+        for b in walk(fn["body"]):
+            if b.get("k") != "block":
+                continue
+            st = [_unwrap_try(s) for s in b.get("stmts", [])]
+            labs = [(i, expr_text(s["args"][0]).replace(" ", "").lstrip("&")) for i, s in enumerate(st) if _self_call(s, ("label",)) and s.get("args")]
+            if len(labs) < 2:
+                continue
+            for i, E in labs:
+                later = [F for j, F in labs if j > i and F != E]
+                if not later or i == 0:
+                    continue
+                ename = E.split(".")[0]
+                referenced = any(_self_call(x) and x["method"] != "label" and any(_mentions(a, ename) for a in x.get("args", [])) for s in st[:i] for x in walk(s))
+                if not referenced:
+                    continue
+                n += 1
+                key = "T-ALT-JUMP:%s:%s" % (fn["name"], E)
+                prev = st[i - 1]
+                ok = False
+                if _self_call(prev, ("asm",)) and len(prev.get("args", [])) >= 2 and prev["args"][0].get("k") == "path" and prev["args"][0]["segs"][-1] == "JMP":
+                    tgt = expr_text(prev["args"][1]).replace(" ", "")
+                    ok = any(re.search(r"\b%s\b" % re.escape(F.split(".")[0]), tgt) for F in later)
+                elif _function_exit(prev):
+                    ok = True
+                res.inst(key, True, {"function": fn["name"], "second_alternative_at": E, "preceded_by": expr_text(prev)[:70]})
+                if not ok:
+                    res.fail(key, facts.where(fn, prev), "%s: `label(%s)` opens the second alternative and the statement before it is `%s`, not the unconditional jump to %s: the first alternative can run into the second" % (fn["name"], E, expr_text(prev)[:70], " / ".join(later)))
+    if n == 0:
+        raise AnchorMissing("no two-alternative layout found in the generator")
